@@ -100,4 +100,57 @@ Module PCS.
     intros c s s' Ho H. scbn H. rewrite Ho in H. destruct (negb (calls s <? max_calls c)); [discriminate|].
     injection H as <-. cbn. repeat split; reflexivity.
   Qed.
+
+  (* ---- site-level statements ---- *)
+  Ltac site s :=
+    intros;
+    repeat match goal with
+    | H : _ \/ _ |- _ => destruct H
+    | H : exists _, _ |- _ => destruct H
+    end;
+    rew_eqs s; cbn in *;
+    repeat match goal with |- _ /\ _ => split | |- _ <> _ => intro end;
+    rew_eqs s; cbn in *;
+    try (apply b2n_0); lia.
+
+  (* whoever is about to send on a channel finds it open *)
+  Theorem pc_no_send_on_closed : forall c l s, run (step c) (init c) l = Some s ->
+    (* errors: dispatcher, feeder, broker worker (handleResponses / abort) *)
+    ((dp s = DErr \/ fp s = FParseErr \/ (exists o, sc (w s) = SCHErr o) \/ sc (w s) = SCAbErr \/ sc (w s) = SCAbNErr) ->
+       closed (errs (ch s)) = false) /\
+    (* messages: the feeder *)
+    ((exists n f, fp s = FMsgs n f) \/ (exists n, fp s = FLimbo n) -> closed (msgs (ch s)) = false) /\
+    (* feeder channel: the broker worker *)
+    (sc (w s) = SCFeed -> feed_closed (ch s) = false) /\
+    (* trigger tokens: dispatcher, broker worker *)
+    ((dp s = DTok \/ sc (w s) = SCHTok \/ sc (w s) = SCAbTok \/ sc (w s) = SCAbNTok) ->
+       trig_closed (ch s) = false /\ trig_tok (ch s) = false) /\
+    (* the worker's input: dispatcher and (after an expired hand-over) feeder *)
+    ((dp s = DSub \/ fp s = FResub) -> in_closed (w s) = false).
+  Proof.
+    intros c l s H. assert (I : Inv s) by (apply (reach_inv c s); now exists l).
+    destr_inv I. pose_specs s. unfold own in *.
+    split; [site s|]. split; [site s|]. split; [site s|]. split; [site s|]. site s.
+  Qed.
+
+  (* whoever is about to close a channel finds it open: trigger is closed by the dispatcher (holding a
+     token, dying closed) or by the broker worker holding the subscription — never by both —, feeder by the
+     dispatcher, messages and errors by the feeder, the worker's input by the last unref, wait and
+     newSubscriptions by the subscription manager *)
+  Theorem pc_no_double_close : forall c l s, run (step c) (init c) l = Some s ->
+    ((dp s = DSel \/ sc (w s) = SCUpdClose \/ sc (w s) = SCHClose) -> trig_closed (ch s) = false) /\
+    (dp s = DCloseF -> feed_closed (ch s) = false) /\
+    (fp s = FCloseM -> closed (msgs (ch s)) = false) /\
+    (fp s = FCloseE -> closed (errs (ch s)) = false) /\
+    (has_broker s = true -> in_closed (w s) = false) /\
+    (sm (w s) = SMCloseWait -> wait_closed (w s) = false) /\
+    (sm (w s) = SMCloseNS -> ns_closed (w s) = false) /\
+    (* the two potential closers of trigger are never both positioned to close it *)
+    (dp s = DSel -> sc (w s) <> SCUpdClose /\ sc (w s) <> SCHClose).
+  Proof.
+    intros c l s H. assert (I : Inv s) by (apply (reach_inv c s); now exists l).
+    destr_inv I. pose_specs s. unfold own in *.
+    split; [site s|]. split; [site s|]. split; [site s|]. split; [site s|]. split; [site s|].
+    split; [site s|]. split; [site s|]. site s.
+  Qed.
 End PCS.
